@@ -46,7 +46,7 @@ class C15(Prop):
     def model_checks(self, tier):
         big = tier == "thorough"
         c = {"Conns": {"c1", "c2"}, "Names": {"V", "V1", "V10"} if big else {"V", "V1"}, "Vals": {"n7", "sx", "expr"},
-             "Devs": set(), "Depth": 8, "MaxFails": 0, "CasingsUsed": {"lower", "upper", "mixed"}, "CursUsed": {1, 2}}
+             "Devs": set(), "Depth": 8, "MaxFails": 0, "SampleOneIn": 1, "CasingsUsed": {"lower", "upper", "mixed"}, "CursUsed": {1, 2}}
         out = [dict(name="mc_ideal", consts=c, invariants=["StepInv"], constraint="Bound", view="ViewSt")]
         for d in sorted(["C15.ref_in_string_literal", "C15.expr_value_textual"]):
             out.append(dict(name="mc_" + d.split(".")[1], consts=dict(c, Conns={"c1"}, Names={"V"}, Vals={"n7", "expr"}, Devs={d}, Depth=4),
@@ -55,7 +55,7 @@ class C15(Prop):
 
     def generations(self, tier, seed):
         big = tier == "thorough"
-        base = {"Devs": set(), "MaxFails": 0, "CasingsUsed": {"lower", "upper", "mixed"}, "CursUsed": {1, 2}}
+        base = {"Devs": set(), "MaxFails": 0, "SampleOneIn": 1, "CasingsUsed": {"lower", "upper", "mixed"}, "CursUsed": {1, 2}}
         small = dict(base, CasingsUsed={"lower"}, CursUsed={1})
         g = [
             # every operation sequence up to a bounded length over a tiny vocabulary: repeats of the same statement text
